@@ -479,6 +479,8 @@ func Replay(c *core.Ctx, lines []string) {
 			mn, _ := strconv.Atoi(f[1])
 			mx, _ := strconv.Atoi(f[2])
 			doDepth(c, cli, mn, mx, s2b(f[3]), s2b(f[4]), mustDump(f[5]))
+		case f[0] == "C07.seq" && len(f) >= 3:
+			doSeq(c, strings.Split(f[1], ";"), mustDump(f[2]))
 		case f[0] == "C07.cmd" && len(f) >= 6:
 			replayCmd(c, f)
 		case f[0] == "C07.depthstale" && len(f) >= 8:
@@ -656,6 +658,9 @@ func Run(c *core.Ctx) {
 		default:
 			resolveCase(c, false)
 		}
+	}
+	for i := 0; i < c.Scale(40, 1200); i++ {
+		seqCase(c)
 	}
 	if c.Gotree != "" {
 		m := c.Scale(40, 800)
